@@ -819,7 +819,8 @@ def rule_generic(chk, prog, tier):
     fn = prog.require_func('generic', 'expr.c')
     QC, QV = ev(prog, 'QUALCONST'), ev(prog, 'QUALVOLATILE')
     CTRL = [('int', 0), ('int', QC), ('int', QV | QC), ('long', 0), ('uint', 0), ('char', 0), ('double', QC), ('ptr_int', 0), ('ptr_cint', 0), ('enum_uint', 0), ('struct', QC)]
-    LISTS = [[('int', 0), ('long', 0)], [('long', 0), ('int', 0), 'default'], [('uint', 0), ('char', 0), 'default'], [('long', 0), ('double', 0)], [('int', 0), ('int', 0)], [('int', QC), ('long', 0), 'default'],
+    LISTS = [[('int', 0), ('int', 0), 'default'], [('uint', 0), 'default', ('enum_uint', 0)], [('ptr_int', 0), ('long', 0), ('ptr_int', 0), 'default'], [('int', QC), ('int', 0), 'default'],
+             [('int', 0), ('long', 0)], [('long', 0), ('int', 0), 'default'], [('uint', 0), ('char', 0), 'default'], [('long', 0), ('double', 0)], [('int', 0), ('int', 0)], [('int', QC), ('long', 0), 'default'],
              ['default', ('ptr_int', 0), ('ptr_cint', 0)], [('uint', 0), ('enum_uint', 0)], ['default', 'default'], [('struct', 0), 'default'], [('incomplete', 0), 'default'], [('func', 0), 'default'], [('uint', 0)]]
     for cty, cq in CTRL:
         for li, assoc in enumerate(LISTS):
@@ -890,8 +891,6 @@ def rule_generic(chk, prog, tier):
                     elif not matches and ndef: want = ndef[0]
                     elif not matches: err = 'no match and no default'
             key = 'generic:%s%s|%s' % ('c' if cq & QC else '', cty + ('v' if cq & QV else ''), ','.join('default' if a == 'default' else ('const ' if a[1] else '') + a[0] for a in assoc))
-            if err == 'two compatible associations' and run.outcome == 'return':
-                continue        # cproc diagnoses duplicates only when they match the controlling type: a missed diagnostic outside the selection itself, not judged here
             if err:
                 r.instance(run.outcome == 'terminal:error', key, 'expr.c:%s' % fn.get('line'), 'constraint violation (%s) must be diagnosed; cproc selects association %s' % (err, run.value if run.outcome == 'return' else run.outcome))
             else:
